@@ -40,6 +40,8 @@ def ev(s, t, temp, calls):
             if v is not None:
                 temp[k] = v
         return True
+    if a == "Spawn":
+        return True
     if a == "Require":
         if s["item"] not in temp or temp[s["item"]] is None:
             return bool(s.get("if_none", False))
@@ -51,8 +53,12 @@ def ev(s, t, temp, calls):
 def judge_flow(sim, plan):
     """compare the live spy log, date by date and strategy by strategy, with the reference interpreter"""
     n = len(plan["feed"]["dates"])
-    strategies = plan["stacks"]  # full_name -> stack spec list (live tree), in tree order
+    strategies = dict(plan["stacks"])  # full_name -> stack spec list (live tree), in tree order
     order = list(strategies)
+    spawn = plan.get("spawn")
+    if spawn:
+        # a sub-strategy created by the top strategy's own stack on date t: it is the top's last child from that run on
+        strategies[spawn["name"]] = spawn["stack"]
     log = [r for r in sim.spy_log if r[3]]
     by_t = {}
     for r in log:
@@ -68,7 +74,8 @@ def judge_flow(sim, plan):
                 seen.append(r[1])
         exp_blocks = []
         exp_calls = {}
-        for name in order:
+        order_t = order + ([spawn["name"]] if spawn and t >= spawn["t"] else [])
+        for name in order_t:
             calls = []
             temp = {}
             interp(strategies[name], t, temp, calls)
@@ -78,7 +85,7 @@ def judge_flow(sim, plan):
         if seen != exp_blocks:
             sim.violation("c13_run_order", "date #%d: strategies ran their stacks in blocks %s, expected %s (own stack first, each child once)" % (t, seen, exp_blocks), {})
             return judged
-        for name in order:
+        for name in order_t:
             got = [r[0] for r in recs if r[1] == name]
             judged += 1
             if got != exp_calls[name]:
